@@ -95,7 +95,8 @@ def execute_history(hist, seed=0):
     try:
         for i, st in enumerate(hist):
             op, cbs = st["op"], sorted(st["cbs"])
-            o = {"op": op, "cbs": cbs, "fail": bool(st["fail"]), "logs": [], "executed": [], "raised": False}
+            o = {"op": op, "cbs": cbs, "fail": bool(st["fail"]), "logs": [], "executed": [], "raised": False,
+                 "pos": int(st.get("pos", 0))}
             for r in recs.values():
                 r.log = []
             try:
@@ -112,6 +113,8 @@ def execute_history(hist, seed=0):
                     stack.append(cm)
                 elif op == "exit":
                     stack.pop().__exit__(None, None, None)
+                elif op == "exitat":
+                    stack.pop(st["pos"] - 1).__exit__(None, None, None)
                 elif op == "run":
                     raised, executed = run_graph(st["fail"], threaded=(i + seed) % 3 == 0)
                     o["raised"], o["executed"] = raised, executed
@@ -192,8 +195,20 @@ def random_history(rng, n):
             choices += ["enter", "enter"]
         if ctx:
             choices += ["exit", "exit"]
+        # leaving a context that is not the innermost one - only where that is unambiguous (the
+        # context shares no callback with another live context or with a registered callback)
+        lonely = [i for i in range(len(ctx) - 1)
+                  if not (ctx[i] & (reg | set().union(*[c for j, c in enumerate(ctx) if j != i])))]
+        if lonely:
+            choices.append("exitat")
         op = rng.choice(choices)
-        st = {"op": op, "cbs": [], "fail": False}
+        st = {"op": op, "cbs": [], "fail": False, "pos": 0}
+        if op == "exitat":
+            i = rng.choice(lonely)
+            st["cbs"] = sorted(ctx.pop(i))
+            st["pos"] = i + 1
+            hist.append(st)
+            continue
         if op == "register":
             c = rng.choice(free); reg.add(c); st["cbs"] = [c]
         elif op == "unregister":
